@@ -255,5 +255,21 @@ def minkowskiA (C : Consts R) (fin : R → Bool) (x xp : NArr R) (pair : Bool) (
       else if overflowed fin d t s = true then maxReduce d axis             -- l.187-188
       else .ok (s.map (C.root p))                                           -- `**(1./p)`
 
+/-! ### `Lnorm` with its fall-back (distance.py l.32-36), third deepening -/
+
+/-- the `FloatingPointError` of `Lnorm` l.32-35 (`seterr(over='raise', invalid='raise')`): a finite weight whose power
+is not finite, or a non-finite sum of finite powers.  UNDERFLOW is not among the raised conditions: a power that
+vanishes or becomes denormal is summed as it is. -/
+def lnormOverflowed (fin : R → Bool) (ws : List R) (p : Nat) : Bool :=
+  (List.zipWith (fun a b => fin a && !fin b) ws (ws.map (powN · p))).any id ||
+  ((ws.map (powN · p)).all fin && !fin (lsum (ws.map fun x => absR (powN x p))))
+
+/-- distance.py l.13 `Lnorm(weights, p)` for a natural `p`, `axis=None`, with the fall-back of l.35-36
+(`except FloatingPointError: w = max(abs(weights))`) -/
+def lnormA (C : Consts R) (fin : R → Bool) (ws : List R) (p : Nat) : R :=
+  if p = 0 then lnorm C ws 0                                                -- l.26-27
+  else if lnormOverflowed fin ws p = true then lnormInf ws                  -- l.35-36
+  else lnorm C ws p                                                         -- l.34
+
 end
 end MysticVerif.Meas
